@@ -6,7 +6,6 @@ Only necessary structural conditions are armed; everything merely unusual is a N
 from __future__ import annotations
 
 import ast
-import copy
 import struct
 from collections import deque
 
@@ -114,8 +113,13 @@ def _norm_encoding(node):
     return None
 
 
-def _is_nul(node):
-    return isinstance(node, ast.Constant) and node.value == NUL
+def _is_nul(node, ev=None):
+    """node is b"\\x00": literally, or a module/class constant that evaluates to it (ev: ConstEval of the module)"""
+    if isinstance(node, ast.Constant):
+        return node.value == NUL
+    if ev is not None and isinstance(node, (ast.Name, ast.Attribute)):
+        return ev.ev(node) == NUL
+    return False
 
 
 # --------------------------------------------------------------------------- R1
@@ -515,15 +519,31 @@ def r2(ctx):
                 if ap(t) == f"{m}.blocks":
                     return True        # the blocks setter drops the raw body
         for c in stmt_calls(node):
-            if _helper_effect(repo, pb, c, "clear"):
+            if _helper_effect(repo, pb, c, "clear") or msg_method_clears(c) is not None:
                 return True
         return False
+
+    def msg_method_clears(c):
+        """`<msg>.meth(..)` where Message.meth (also inherited) stores None into self.raw_body: that method"""
+        if not (isinstance(c.func, ast.Attribute) and ap(c.func.value) == m):
+            return None
+        meth = repo.lookup_method(repo.cls("Message", MSG), c.func.attr)
+        if meth is None:
+            return None
+        for st in stores(meth.node, into_defs=False):
+            if st.path == "self.raw_body" and st.kind == "assign" and isinstance(st.value, ast.Constant) and st.value.value is None:
+                return meth
+        return None
 
     clears = [n for n in cfg.nodes if is_clear(n)]
     ctx.floor("C02.R2", "statements clearing msg.raw_body in parse_message_body", len(clears), 1)
     ctx.stats["C02.R2.restore nodes"] = sum(1 for n in cfg.nodes if is_restore(n))
     for c in clears:
         own_exc = bool(stmt_calls(c)) and not isinstance(c.ast, ast.Assign)
+        # a clearing method of the message that itself calls nothing cannot fail half-way
+        cm = [msg_method_clears(x) for x in stmt_calls(c)]
+        if own_exc and cm and all(x is not None and not calls(x.node) for x in cm):
+            own_exc = False
         wit = _flag_aware_witness(cfg, c, lambda n: n is cfg.raise_exit, is_restore, flags, follow_start_exc=own_exc)
         ctx.ob("C02.R2", f"{pb.qual}: after `{norm(c.ast)}` every exceptional exit restores raw_body",
                wit is None, ctx.w(pb, c.ast),
@@ -644,7 +664,7 @@ def r4(ctx):
         v = _expand(ps.node, r.value) if r.value is not None else None
         if is_str:
             n_str += 1
-            ok = isinstance(v, ast.BinOp) and isinstance(v.op, ast.Add) and _is_nul(v.right)
+            ok = isinstance(v, ast.BinOp) and isinstance(v.op, ast.Add) and _is_nul(v.right, ConstEval(repo, ps.module))
             left = _expand(ps.node, v.left) if ok else None
             ok = ok and isinstance(left, ast.Call) and call_attr(left) == "encode" and isinstance(left.func, ast.Attribute) \
                 and ap(left.func.value) == pparam
@@ -744,7 +764,7 @@ def r4(ctx):
             one = s.lower is None and s.step is None and isinstance(up, ast.UnaryOp) and isinstance(up.op, ast.USub) \
                 and isinstance(up.operand, ast.Constant) and up.operand.value == 1
         elif isinstance(recv, ast.Call) and call_attr(recv) == "removesuffix" and isinstance(recv.func, ast.Attribute) \
-                and ap(recv.func.value) == Xn and len(recv.args) == 1 and _is_nul(recv.args[0]):
+                and ap(recv.func.value) == Xn and len(recv.args) == 1 and _is_nul(recv.args[0], ConstEval(repo, fn_.module)):
             one = True
         ctx.ob("C02.R4", f"{key} removes exactly one terminator", one, where,
                f"decodes {norm(recv) if recv is not None else '?'}: must be <data>[:-1] or removesuffix(NUL) - "
@@ -752,7 +772,7 @@ def r4(ctx):
         guarded = False
         for e, pol in facts(r, fn_.node):
             if pol and isinstance(e, ast.Call) and call_attr(e) == "endswith" and isinstance(e.func, ast.Attribute) \
-                    and ap(e.func.value) == Xn and len(e.args) == 1 and _is_nul(e.args[0]):
+                    and ap(e.func.value) == Xn and len(e.args) == 1 and _is_nul(e.args[0], ConstEval(repo, fn_.module)):
                 guarded = True
             if isinstance(e, ast.Compare) and len(e.ops) == 1 and isinstance(e.left, ast.Subscript) and ap(e.left.value) == Xn \
                     and (isinstance(e.ops[0], ast.Eq) and pol or isinstance(e.ops[0], ast.NotEq) and not pol):
@@ -762,7 +782,7 @@ def r4(ctx):
                     isinstance(sl.lower.operand, ast.Constant) and sl.lower.operand.value == 1
                 last_idx = isinstance(sl, ast.UnaryOp) and isinstance(sl.op, ast.USub) and \
                     isinstance(sl.operand, ast.Constant) and sl.operand.value == 1
-                if (last_slice and _is_nul(rhs)) or (last_idx and isinstance(rhs, ast.Constant) and rhs.value == 0
+                if (last_slice and _is_nul(rhs, ConstEval(repo, fn_.module))) or (last_idx and isinstance(rhs, ast.Constant) and rhs.value == 0
                                                      and not isinstance(rhs.value, bool)):
                     guarded = True
         ctx.ob("C02.R4", f"{key} only for NUL-terminated data", guarded, where,
@@ -957,8 +977,10 @@ def _is_projection(e, var, consts, helper=None):
             return _is_projection(e.func.value, var, consts, helper)
         if ap(e.func) in ("tuple", "list", "bytes") and len(e.args) == 1 and not e.keywords:
             return _is_projection(e.args[0], var, consts, helper)
-        if helper is not None and len(e.args) == 1 and not e.keywords and helper(e):
-            return _is_projection(e.args[0], var, consts, helper)
+        if helper is not None and not e.keywords:
+            val = helper(e, consts)
+            if val is not None:
+                return _is_projection(val, var, consts, helper)
         return False
     if isinstance(e, ast.Subscript):
         def plain(b):
@@ -995,23 +1017,39 @@ def _pure_names(body, var, consts, helper):
     return pure, assigns
 
 
-def _method_projects(repo, ci, depth=0):
-    """helper(call) for packers that are methods of class ci: `self.m(<arg>)` returns a projection of its argument
-    when every return of m is a projection of m's parameter."""
-    def helper(call):
-        if depth > 3 or not (isinstance(call.func, ast.Attribute) and isinstance(call.func.value, ast.Name)
-                             and call.func.value.id in ("self", "cls")):
-            return False
-        m = repo.lookup_method(ci, call.func.attr)
-        if m is None:
-            return False
-        params = [a.arg for a in m.node.args.args][1:]
-        if len(params) != 1:
-            return False
-        inner = _method_projects(repo, ci, depth + 1)
-        pure, _a = _pure_names(m.node.body, params[0], set(), inner)
-        rets = [r for r in walk(m.node) if isinstance(r, ast.Return)]
-        return bool(rets) and all(r.value is not None and any(_is_projection(r.value, q, set(), inner) for q in pure) for r in rets)
+def _projecting_helpers(repo, mod, ci, depth=0):
+    """helper(call, consts) -> the argument of `call` whose projection the callee returns, or None.  Callees: methods of
+    ci called on self/cls, and functions of module `mod`; every other argument must be a constant of the caller; the
+    callee's returns must all be projections of the corresponding parameter."""
+    def is_const(a, consts):
+        return isinstance(a, ast.Constant) or (isinstance(a, ast.Name) and a.id in consts) or \
+            (isinstance(a, ast.Attribute) and isinstance(a.value, ast.Name) and a.value.id in ("self", "cls"))
+
+    def helper(call, consts):
+        if depth > 3:
+            return None
+        g, params = None, []
+        if isinstance(call.func, ast.Attribute) and isinstance(call.func.value, ast.Name) and call.func.value.id in ("self", "cls") \
+                and ci is not None:
+            g = repo.lookup_method(ci, call.func.attr)
+            params = [a.arg for a in g.node.args.args][1:] if g is not None else []
+        elif isinstance(call.func, ast.Name):
+            cands = [x for x in repo.funcs.get(call.func.id, []) if x.module is mod and x.cls is None and x.parent_fn is None]
+            g = cands[0] if len(cands) == 1 else None
+            params = [a.arg for a in g.node.args.args] if g is not None else []
+        if g is None or len(call.args) > len(params) or not call.args:
+            return None
+        vals = [(p_, a) for p_, a in zip(params, call.args) if not is_const(a, consts)]
+        if len(vals) != 1:
+            return None
+        pname, arg = vals[0]
+        inner = _projecting_helpers(repo, g.module, g.cls, depth + 1)
+        gconsts = set(params) - {pname}
+        pure, _a = _pure_names(g.node.body, pname, gconsts, inner)
+        rets = [r for r in walk(g.node) if isinstance(r, ast.Return)]
+        if rets and all(r.value is not None and any(_is_projection(r.value, q, gconsts, inner) for q in pure) for r in rets):
+            return arg
+        return None
     return helper
 
 
@@ -1032,7 +1070,7 @@ def r6(ctx):
                 params = [a.arg for a in d.args.args]
                 if len(params) != 1:
                     raise AnalysisError(f"C02.R6: {fname}: packer with parameters {params}")
-                packers.append((d, params[0], fconsts, None, getattr(d, "name", "lambda")))
+                packers.append((d, params[0], fconsts, _projecting_helpers(repo, fac.module, None), getattr(d, "name", "lambda")))
         for c in calls(fac.node, into_defs=True):
             # functools.partial(<module-level function>, <bound args>): the function is the packer, its remaining
             # parameter the value, the bound ones are constants of the factory
@@ -1044,7 +1082,8 @@ def r6(ctx):
                         nbound = len(c.args) - 1 + len(c.keywords)
                         if len(params) - nbound != 1:
                             raise AnalysisError(f"C02.R6: {fname}: partial packer {g.qual} leaves parameters {params[nbound:]}")
-                        packers.append((g.node, params[nbound], fconsts | set(params[:nbound]), None, g.qual))
+                        packers.append((g.node, params[nbound], fconsts | set(params[:nbound]),
+                                        _projecting_helpers(repo, g.module, None), g.qual))
             # Cls(<args>) where Cls defines __call__: the instance is the packer, what __init__ stored are constants
             elif isinstance(c.func, ast.Name):
                 ci = repo.resolve_class(c.func.id, fac.module)
@@ -1053,7 +1092,7 @@ def r6(ctx):
                     params = [a.arg for a in call_m.node.args.args][1:]
                     if len(params) != 1:
                         raise AnalysisError(f"C02.R6: {fname}: callable packer {ci.name} with parameters {params}")
-                    packers.append((call_m.node, params[0], set(), _method_projects(repo, ci), f"{ci.name}.__call__"))
+                    packers.append((call_m.node, params[0], set(), _projecting_helpers(repo, ci.module, ci), f"{ci.name}.__call__"))
         seen = set()
         for d, var, consts, helper, name in packers:
             if id(d) in seen:
@@ -1072,8 +1111,93 @@ def r6(ctx):
         # bound method `struct_obj.pack` returned directly is a projection by construction
     ctx.floor("C02.R6", "packers (closures / partials / callable objects) in the SPECS factories", n, 1)
 
+    # unpack side: the "plain constructor" must be plain - the coordinate class built from the unpacked floats stores
+    # the components that go back on the wire as they are (float() of a float is the same float)
+    from .common import fmt_count
+    packer_cls = repo.cls("TemplateDataPacker", PACK)
+    specs = repo.class_attr(packer_cls, "SPECS")
+    pev = ConstEval(repo, packer_cls.module)
+    seen = set()
+    if isinstance(specs, ast.Dict):
+        for v in specs.values:
+            if not (isinstance(v, ast.Call) and ap(v.func) == "_make_tuplecoord_spec" and v.args):
+                continue
+            ci = repo.resolve_class(ap(v.args[0]) or "", packer_cls.module)
+            if ci is None:
+                raise AnalysisError(f"C02.R6: coordinate class {norm(v.args[0])} of a SPECS row not found")
+            fmt = next((pev.ev(a) for a in v.args[1:] if isinstance(pev.ev(a), str)), None)
+            ne = next((k.value for k in v.keywords if k.arg == "needed_elems"), None)
+            n_wire = pev.ev(ne) if ne is not None else (fmt_count(fmt) if isinstance(fmt, str) else None)
+            if not isinstance(n_wire, int) or (ci.name, n_wire) in seen:
+                continue
+            seen.add((ci.name, n_wire))
+            init = repo.lookup_method(ci, "__init__")
+            if init is None:
+                continue
+            params = [a.arg for a in init.node.args.args][1:1 + n_wire]
+            for pname in params:
+                sts = [st for st in stores(init.node, into_defs=False) if st.path == f"self.{pname}" and st.kind == "assign"]
+                rebinds = [st for st in stores(init.node, into_defs=False) if st.path == pname]
+                ok = bool(sts) and not rebinds and all(
+                    (isinstance(st.value, ast.Name) and st.value.id == pname) or
+                    (isinstance(st.value, ast.Call) and ap(st.value.func) == "float" and len(st.value.args) == 1
+                     and ap(st.value.args[0]) == pname) for st in sts)
+                ctx.ob("C02.R6", f"{ci.name}.__init__ stores wire component {pname} as it is", ok, ctx.w(init, init.node),
+                       f"self.{pname} is not simply {pname} / float({pname}) "
+                       f"({[norm(st.value) for st in sts + rebinds if st.value is not None]}): a value unpacked from the wire is "
+                       f"changed on construction (clamped / NaN-scrubbed / rounded) and packs back to different bytes")
+    ctx.floor("C02.R6", "coordinate classes built by SPECS unpackers", len(seen), 2)
+
+
+# --------------------------------------------------------------------------- R7
+
+def r7(ctx):
+    repo = ctx.repo
+    ctx.rule("C02.R7", "the message model stores what the parser hands it verbatim: Block.__setitem__ keeps the value "
+                       "(enum -> int apart), and a wire field of Message that is a property has a setter that stores its "
+                       "argument (or a tuple/bytes of it) - no strip / dedupe / normalise on the way in")
+    si = repo.fn("Block.__setitem__", MSG)
+    params = [a.arg for a in si.node.args.args][1:]
+    ctx.require(len(params) == 2, "Block.__setitem__ signature changed")
+    keyp, valp = params
+    sets = [st for st in stores(si.node, into_defs=False) if st.kind == "setitem" and st.path == "self.vars"]
+    ctx.floor("C02.R7", "stores into Block.vars in __setitem__", len(sets), 1)
+    for st in sets:
+        ctx.ob("C02.R7", f"Block.__setitem__: `{norm(st.node)}` stores the value parameter", isinstance(st.value, ast.Name)
+               and st.value.id == valp, ctx.w(si, st.node), "what is stored is not the value that was handed in")
+    for st in [x for x in stores(si.node, into_defs=False) if x.path == valp]:
+        v = st.value
+        enum_int = st.kind == "assign" and isinstance(v, ast.Call) and ap(v.func) == "int" and len(v.args) == 1 and ap(v.args[0]) == valp \
+            and any(pol and isinstance(e, ast.Call) and ap(e.func) == "isinstance" and "enum" in src(e).lower()
+                    for e, pol in facts(st.node, si.node))
+        ctx.ob("C02.R7", f"Block.__setitem__: `{norm(st.node)}` leaves the value intact", enum_int, ctx.w(si, st.node),
+               "every variable the parser decodes is stored through here: rewriting the value (strip / rstrip / replace / "
+               "lower / round ...) loses bytes that the re-encoded datagram needs")
+    # wire fields of Message that became properties
+    hf = repo.fn("UDPMessageDeserializer._parse_message_header")
+    hm = _msg_param_or_local(hf)
+    fields = sorted({st.path.split(".", 1)[1] for st in stores(hf.node, into_defs=False)
+                     if st.path.startswith(hm + ".") and st.path.count(".") == 1})
+    ctx.floor("C02.R7", "message fields set by the header parser", len(fields), 5)
+    msg = repo.cls("Message", MSG)
+    for fld in fields:
+        setter = repo.lookup_method(msg, f"{fld}.setter")
+        if setter is None:
+            continue
+        sp = [a.arg for a in setter.node.args.args][1:]
+        if len(sp) != 1:
+            raise AnalysisError(f"C02.R7: setter of Message.{fld} has parameters {sp}")
+        sts = [st for st in stores(setter.node, into_defs=False) if st.path.startswith("self.") and st.kind == "assign"
+               and st.value is not None and any(isinstance(x, ast.Name) and x.id == sp[0] for x in ast.walk(st.value))]
+        ok = bool(sts) and all(_is_projection(st.value, sp[0], set()) for st in sts) and \
+            not [st for st in stores(setter.node, into_defs=False) if st.path == sp[0]]
+        ctx.ob("C02.R7", f"Message.{fld} setter stores its argument as it is", ok, ctx.w(setter, setter.node),
+               f"{[norm(st.value) for st in sts]}: the header parser's value is normalised on assignment, so even a never-parsed "
+               f"datagram is re-emitted from the changed field")
+
 
 def run(ctx):
+    r7(ctx)
     r6(ctx)
     r1(ctx)
     r2(ctx)
